@@ -79,7 +79,8 @@ func ExecRun(t *testing.T, spec RunSpec) (res RunResult) {
 	if fam == nil {
 		panic(fmt.Sprintf("no family %s/%s", spec.Prop, spec.Fam))
 	}
-	debug.SetGCPercent(-1)
+	gcOff()
+	verifsim.SetSelect(1, 1) // also switches off time-slice preemption (runtime overlay)
 	func() {
 		defer func() {
 			if r := recover(); r != nil {
@@ -92,7 +93,7 @@ func ExecRun(t *testing.T, spec RunSpec) (res RunResult) {
 		fam.Run(w, &spec, &res)
 	}()
 	verifsim.Hook = nil
-	debug.SetGCPercent(100)
+	gcBetweenRuns()
 	for _, v := range w.Viol {
 		if v.Prop == spec.Prop || v.Prop == "HARNESS" {
 			res.Viol = append(res.Viol, v)
@@ -112,6 +113,28 @@ func ExecRun(t *testing.T, spec RunSpec) (res RunResult) {
 	res.States = w.States
 	res.Text = w.Text
 	return res
+}
+
+var gcIsOff bool
+var runsSinceGC int
+
+// The collector stays off while a run executes: a collection cycle preempts
+// the running goroutine cooperatively, which reorders goroutines that are
+// runnable within one scheduler step. Collections happen between runs, and
+// runtime.GC returns only when the cycle is complete.
+func gcOff() {
+	if !gcIsOff {
+		debug.SetGCPercent(-1)
+		gcIsOff = true
+	}
+}
+
+func gcBetweenRuns() {
+	runsSinceGC++
+	if runsSinceGC >= 32 {
+		runsSinceGC = 0
+		runtime.GC()
+	}
 }
 
 // ---- the flow runner ----
